@@ -15,13 +15,14 @@
 (* only by the side conditions that TLC checks on the real tables:           *)
 (*       TrueDep[k] \subseteq Dep[k]                                          *)
 (*       a \in Aux[k]  =>  TrueDep[a] \subseteq Dep[k]                        *)
-(* Versions are unbounded integers; three objects share or own one of four   *)
-(* dependency dictionaries (copies share their parent's, a pickling round    *)
-(* trip creates a new one).                                                   *)
+(* Staleness is a ghost set: a valid cached value becomes stale when a        *)
+(* variable it really depends on is assigned and the entry survives.  Three    *)
+(* objects share or own one of four dependency dictionaries (copies share      *)
+(* their parent's, a pickling round trip creates a new one).                   *)
 (*                                                                          *)
 (*    Init => IndInv,   IndInv /\ Next => IndInv',   IndInv => Fresh          *)
 (***************************************************************************)
-EXTENDS Integers, FiniteSets, Apalache
+EXTENDS Integers, FiniteSets
 
 Objs == {"o1", "o2", "o3"}
 Vars == {"pos", "mom", "dir"}
@@ -49,67 +50,69 @@ ConstInit ==
 VARIABLES
   \* @type: Set(Str);
   alive,
-  \* @type: Str -> (Str -> Int);
-  ver,
-  \* @type: Int;
-  clock,
-  \* @type: Str -> Set(Str);
-  present,
-  \* @type: Str -> Set(Str);
-  valid,
-  \* @type: Str -> (Str -> (Str -> Int));
-  snap,
+  \* @type: Set(<<Str, Str>>);
+  present,     \* <<o, k>> : key k is in the cache dictionary of state o (possibly with value None)
+  \* @type: Set(<<Str, Str>>);
+  valid,       \* <<o, k>> : ... with a value
+  \* @type: Set(<<Str, Str>>);
+  stale,       \* <<o, k>> : (ghost) a variable the value really depends on was assigned since it was computed
   \* @type: Str -> Str;
-  grp,
-  \* @type: Str -> (Str -> Set(Str));
-  deps
+  grp,         \* the dependency dictionary state o uses
+  \* @type: Set(<<Str, Str, Str>>);
+  deps         \* <<g, v, k>> : key k is registered for variable v in dictionary g
 
-vars == <<alive, ver, clock, present, valid, snap, grp, deps>>
+vars == <<alive, present, valid, stale, grp, deps>>
 
 Init ==
   /\ alive = {"o1"}
-  /\ ver = [o \in Objs |-> [v \in Vars |-> 0]]
-  /\ clock = 1
-  /\ present = [o \in Objs |-> {}]
-  /\ valid = [o \in Objs |-> {}]
-  /\ snap = [o \in Objs |-> [k \in Keys |-> [v \in Vars |-> 0]]]
+  /\ present = {}
+  /\ valid = {}
+  /\ stale = {}
   /\ grp = [o \in Objs |-> "g1"]
-  /\ deps = [g \in Grps |-> [v \in Vars |-> {}]]
+  /\ deps = {}
+
+\* @type: (Str, Str) => Set(Str);
+Reg(o, v) == {k \in Keys : <<grp[o], v, k>> \in deps}       \* keys registered for v in the dictionary o uses
+\* @type: (Set(<<Str, Str>>), Str) => Set(Str);
+Of(S, o) == {k \in Keys : <<o, k>> \in S}
+\* @type: (Set(<<Str, Str>>), Str) => Set(<<Str, Str>>);
+Without(S, o) == {p \in S : p[1] # o}
+\* @type: (Str, Set(Str)) => Set(<<Str, Str>>);
+Pairs(o, K) == {<<o, k>> : k \in K}
 
 \* ChainState.__setattr__: every key registered for the variable in the (shared) dependency dictionary is set to
-\* None in THIS state's cache (which also makes it present there)
+\* None in THIS state's cache (which also makes it present there); a value that survives although it depends on
+\* the variable is stale from now on
 Assign(o, v) ==
   /\ o \in alive
-  /\ ver' = [ver EXCEPT ![o][v] = clock]
-  /\ clock' = clock + 1
-  /\ valid' = [valid EXCEPT ![o] = @ \ deps[grp[o]][v]]
-  /\ present' = [present EXCEPT ![o] = @ \cup deps[grp[o]][v]]
-  /\ UNCHANGED <<alive, snap, grp, deps>>
+  /\ valid' = valid \ Pairs(o, Reg(o, v))
+  /\ present' = present \cup Pairs(o, Reg(o, v))
+  /\ stale' = stale \cup Pairs(o, {k \in Of(valid, o) \ Reg(o, v) : v \in TrueDep[k]})
+  /\ UNCHANGED <<alive, grp, deps>>
 
 \* a decorated method: keys not yet present (the method and its auxiliary outputs) are registered for the declared
 \* dependencies; if the value is missing or None it is computed -- together with the auxiliary outputs if the user
-\* function follows the tuple convention (withAux)
+\* function follows the tuple convention (withAux); a computed value is fresh
 Call(o, k, withAux) ==
   /\ o \in alive
   /\ LET fam == {k} \cup Aux[k]
-         newkeys == fam \ present[o]
-         filled == IF k \in valid[o] THEN {} ELSE (IF withAux THEN fam ELSE {k})
-     IN /\ deps' = [deps EXCEPT ![grp[o]] = [v \in Vars |-> IF v \in Dep[k] THEN @[v] \cup newkeys ELSE @[v]]]
-        /\ present' = [present EXCEPT ![o] = @ \cup fam]
-        /\ valid' = [valid EXCEPT ![o] = @ \cup filled]
-        /\ snap' = [snap EXCEPT ![o] = [kk \in Keys |-> IF kk \in filled THEN ver[o] ELSE @[kk]]]
-  /\ UNCHANGED <<alive, ver, clock, grp>>
+         newkeys == fam \ Of(present, o)
+         filled == IF <<o, k>> \in valid THEN {} ELSE (IF withAux THEN fam ELSE {k})
+     IN /\ deps' = deps \cup {<<grp[o], v, kk>> : v \in Dep[k], kk \in newkeys}
+        /\ present' = present \cup Pairs(o, fam)
+        /\ valid' = valid \cup Pairs(o, filled)
+        /\ stale' = stale \ Pairs(o, filled)
+  /\ UNCHANGED <<alive, grp>>
 
 \* ChainState.copy: variables copied, cache dictionary copied (entries shared), dependency dictionary SHARED
 Copy(o, n) ==
   /\ o \in alive /\ n # o
   /\ alive' = alive \cup {n}
-  /\ ver' = [ver EXCEPT ![n] = ver[o]]
-  /\ present' = [present EXCEPT ![n] = present[o]]
-  /\ valid' = [valid EXCEPT ![n] = valid[o]]
-  /\ snap' = [snap EXCEPT ![n] = snap[o]]
+  /\ present' = Without(present, n) \cup Pairs(n, Of(present, o))
+  /\ valid' = Without(valid, n) \cup Pairs(n, Of(valid, o))
+  /\ stale' = Without(stale, n) \cup Pairs(n, Of(stale, o))
   /\ grp' = [grp EXCEPT ![n] = grp[o]]
-  /\ UNCHANGED <<clock, deps>>
+  /\ UNCHANGED deps
 
 \* pickling round trip: callable values are dropped from the cache, the dependency dictionary is a new object with
 \* the same registrations
@@ -117,13 +120,11 @@ Pickle(o, n, g) ==
   /\ o \in alive /\ n # o
   /\ \A x \in alive \ {n} : grp[x] # g          \* a dictionary nobody else holds
   /\ alive' = alive \cup {n}
-  /\ ver' = [ver EXCEPT ![n] = ver[o]]
-  /\ present' = [present EXCEPT ![n] = present[o] \ (Callable \cap valid[o])]
-  /\ valid' = [valid EXCEPT ![n] = valid[o] \ Callable]
-  /\ snap' = [snap EXCEPT ![n] = snap[o]]
+  /\ present' = Without(present, n) \cup Pairs(n, Of(present, o) \ (Callable \cap Of(valid, o)))
+  /\ valid' = Without(valid, n) \cup Pairs(n, Of(valid, o) \ Callable)
+  /\ stale' = Without(stale, n) \cup Pairs(n, Of(stale, o) \ Callable)
   /\ grp' = [grp EXCEPT ![n] = g]
-  /\ deps' = [deps EXCEPT ![g] = deps[grp[o]]]
-  /\ UNCHANGED clock
+  /\ deps' = {t \in deps : t[1] # g} \cup {<<g, t[2], t[3]>> : t \in {u \in deps : u[1] = grp[o]}}
 
 Next ==
   \/ \E o \in Objs, v \in Vars : Assign(o, v)
@@ -132,45 +133,29 @@ Next ==
   \/ \E o \in Objs, n \in Objs, g \in Grps : Pickle(o, n, g)
 
 -----------------------------------------------------------------------------
-\* C09: a cached value is the value at the CURRENT versions of everything it depends on
-Fresh == \A o \in alive : \A k \in valid[o] : \A v \in TrueDep[k] : snap[o][k][v] = ver[o][v]
+\* C09: no valid cached value is stale
+Fresh == \A p \in valid : p[1] \in alive => p \notin stale
 
 \* every key present in a state's cache is registered, in the dictionary that state uses, for every variable its
 \* value really depends on (so that the next assignment of that variable finds it).  A method is registered for
 \* its declared dependencies, an auxiliary output for those of the method it was cached with.
-Registered == \A o \in alive : \A k \in present[o] : \A v \in TrueDep[k] : k \in deps[grp[o]][v]
+Registered == \A p \in present : p[1] \in alive => \A v \in TrueDep[p[2]] : <<grp[p[1]], v, p[2]>> \in deps
 
-\* a key is registered for all the variables it really depends on at once (registration adds it for all declared
-\* dependencies of the method being called, which cover them)
-DepsClosed == \A g \in Grps : \A k \in Keys : \A v \in Vars : k \in deps[g][v] => \A u \in TrueDep[k] : k \in deps[g][u]
+\* a key is registered for all the variables it really depends on at once
+DepsClosed == \A t \in deps : \A u \in TrueDep[t[3]] : <<t[1], u, t[3]>> \in deps
 
 TypeOK ==
   /\ alive \subseteq Objs
-  /\ DOMAIN ver = Objs /\ \A o \in Objs : DOMAIN ver[o] = Vars
-  /\ DOMAIN present = Objs /\ \A o \in Objs : present[o] \subseteq Keys
-  /\ DOMAIN valid = Objs /\ \A o \in Objs : valid[o] \subseteq Keys
-  /\ DOMAIN snap = Objs /\ \A o \in Objs : (DOMAIN snap[o] = Keys /\ \A k \in Keys : DOMAIN snap[o][k] = Vars)
+  /\ present \subseteq (Objs \X Keys)
+  /\ valid \subseteq (Objs \X Keys)
+  /\ stale \subseteq (Objs \X Keys)
   /\ DOMAIN grp = Objs /\ \A o \in Objs : grp[o] \in Grps
-  /\ DOMAIN deps = Grps /\ \A g \in Grps : (DOMAIN deps[g] = Vars /\ \A v \in Vars : deps[g][v] \subseteq Keys)
+  /\ deps \subseteq (Grps \X Vars \X Keys)
 
 IndInv ==
   /\ TypeOK
-  /\ \A o \in Objs : valid[o] \subseteq present[o]
-  /\ \A o \in Objs : \A v \in Vars : ver[o][v] < clock
+  /\ valid \subseteq present
   /\ Registered
   /\ DepsClosed
   /\ Fresh
-
-\* an ARBITRARY state satisfying the invariant (Gen: Apalache's bounded value generator; the bounds cover the
-\* fixed finite domains above, integers are unconstrained)
-IndInit ==
-  /\ alive = Gen(3)
-  /\ ver = Gen(3)
-  /\ clock = Gen(1)
-  /\ present = Gen(4)
-  /\ valid = Gen(4)
-  /\ snap = Gen(4)
-  /\ grp = Gen(3)
-  /\ deps = Gen(4)
-  /\ IndInv
 =============================================================================
